@@ -123,6 +123,20 @@ def run(ctx):
             known = set(rn.cm.coinstate.block_by_hash)          # what the node holds now (a roll-back may have dropped blocks)
             forgotten = [b for b in tree.blocks if b.hash() not in known and b.previous_block_hash in known]
             irt = 0
+            if di == 4:
+                # two more greeted peers join; the first of them is half-disconnected at once — its socket is no longer registered
+                # with the selector while the peer is still listed as connected (what a disconnect that fails half-way leaves
+                # behind): queueing the next relayed block for it raises inside the relay loop (once, while its queue is empty),
+                # and the peer after it must get its frame all the same
+                broken_ = rn.add_peer(active=True)
+                rn.add_peer(active=True)
+                ops += ["node peer 1 0", "node peer 1 0"]
+                impl += ["ok", "ok"]
+                try:
+                    rn.lp.selector.unregister(rn.peers[broken_].sock)
+                    res.count("half_disconnected_peer_in_the_relay_loop")
+                except Exception:
+                    pass
             if di == 5 or (di == 25 and si % 2 == 0):
                 # a reorganisation by overtaking, once or twice per scenario: a competitor of the head (same height, not the head)
                 # and then a child of the competitor, which becomes the new head although its parent never was the head
